@@ -124,6 +124,20 @@ def r151(ctx):
             ctx.ok(rid, c, "velocity flags are flipped under rev_v for every frame of the reversed path")
         else:
             ctx.bad(rid, c, "velocity flags are flipped regardless of rev_v")
+    # the flip happens on every path on which rev_v holds: no return is reachable around the loop(s)
+    # that flip, except over a branch that says rev_v is false
+    flip_sites = flips + direct
+    if flip_sites:
+        heads = []
+        for fs_ in flip_sites:
+            for l_ in [x for x in walk_local(f) if isinstance(x, (ast.For, ast.While)) and any(y is fs_ for y in ast.walk(x))]:
+                heads.append(cfg.node_of(l_))
+        norev = [nd for nd in cfg.nodes if nd.kind == "branch" and any(isinstance(e_, ast.Name) and e_.id == "rev_v" and not t_ for e_, t_ in nd.facts)]
+        for r_ in [x for x in walk_local(f) if isinstance(x, ast.Return)]:
+            if cfg.reaches(cfg.entry, cfg.node_of(r_), avoid=heads + norev, labels_excluded=("exc",)):
+                ctx.bad(rid, r_, "Path.reverse can return the reversed path without having flipped the frames' velocity flags although rev_v holds (a return lies before / around the loop that flips them, e.g. the early return for order_function is None): reversing does not flip the flags on that route", construct="Path.reverse: return that bypasses the velocity-flag flip")
+            else:
+                ctx.ok(rid, r_, "every return of Path.reverse under rev_v lies behind the loop that flips the velocity flags")
     rv = methods.get("reverse_velocities")
     okt = False
     for n in walk_local(rv) if rv else []:
@@ -588,6 +602,8 @@ def run(ctx):
 
 
 VARIANTS = [
+    B("c15-flip-after-early-return", PATH, "            new_point = phasepoint.copy()\n            if rev_v:\n                self.reverse_velocities(new_point)\n            new_path.append(new_point)\n        if order_function is None:\n            return new_path\n", "            new_path.append(phasepoint.copy())\n        if order_function is None:\n            return new_path\n        if rev_v:\n            for new_point in new_path.phasepoints:\n                self.reverse_velocities(new_point)\n", "R-15.1", why="seeded C15_i"),
+    K("c15-keep-flip-in-second-loop-before-return", PATH, "            new_point = phasepoint.copy()\n            if rev_v:\n                self.reverse_velocities(new_point)\n            new_path.append(new_point)\n        if order_function is None:\n            return new_path\n", "            new_path.append(phasepoint.copy())\n        if rev_v:\n            for new_point in new_path.phasepoints:\n                self.reverse_velocities(new_point)\n        if order_function is None:\n            return new_path\n"),
     B("c15-extreme-over-all-components", PATH, "        idx = np.argmax([i.order[0] for i in self.phasepoints])", "        idx = np.argmax([i.order for i in self.phasepoints])", "R-15.6", control=True, why="seeded C15_h"),
     B("c15-minimum-by-argmax", PATH, "        idx = np.argmin([i.order[0] for i in self.phasepoints])", "        idx = np.argmax([i.order[0] for i in self.phasepoints])", "R-15.6"),
     K("c15-keep-extreme-comprehension-renamed", PATH, "        idx = np.argmax([i.order[0] for i in self.phasepoints])", "        idx = np.argmax([frame.order[0] for frame in self.phasepoints])"),
